@@ -6,7 +6,7 @@
 //! fill) left in the buffer's memory; the byte-level model (coq/C09/Circular.v, run_bytes in Driver.v) predicts those bytes.
 //! Every offered slice contributes (3, length, its first 32 bytes, its last 32 bytes) to a hash (same fold as `ev=`).
 //! Model part gets  ;sp=<hash>,<result>:<callback bytes>:<callback bytes are the input prefix>:<bytes left in the buffer>
-//! or ;sp=* when reads * (largest slice + input length) > 2_000_000 or the input is longer than 128 KiB (the byte-level
+//! or ;sp=* when reads * (largest slice + input length) > 1_200_000 or the input is longer than 128 KiB (the byte-level
 //! model run would be slow; the same rule is applied in ocaml/c09/main.ml).
 #[path = "../symcase.rs"]
 mod symcase;
@@ -16,7 +16,7 @@ use std::io::Read;
 
 const SPY_K: usize = 32;
 const SPY_MAX_LEN: usize = 131072;
-const SPY_MAX_WORK: u64 = 2_000_000;
+const SPY_MAX_WORK: u64 = 1_200_000;
 
 fn mix(h: &mut u64, v: u64) {
     *h = (*h ^ v).wrapping_mul(0x100000001b3);
